@@ -27,6 +27,13 @@ Theorem c07_cached_engine_writes_as_modelled :
 Proof. reflexivity. Qed.
 Print Assumptions c07_cached_engine_writes_as_modelled.
 
+(* the show-once stderr report of load errors (if the tree has it) has the only shape in which it cannot reach
+   a classification result; its once-per-process de-duplication is outside this property (Model.v, end) *)
+Theorem c07_load_error_report_as_modelled :
+  C07CacheKeys.load_error_report = expected_load_error_report C07CacheKeys.reports_load_errors.
+Proof. reflexivity. Qed.
+Print Assumptions c07_load_error_report_as_modelled.
+
 (* ---- caches ------------------------------------------------------------------------------------ *)
 (* invariant: every cache entry equals recomputation from its key — in every reachable state *)
 Theorem c07_cache_invariant :
